@@ -151,6 +151,18 @@ def _wrap_act_on_expression(orig):
                             OBS.triggers.add("null_cmp")
             except Exception:
                 pass
+        if name in ("sin", "cos") and len(values) == 1:
+            # sin / cos of a huge argument amplify the last-bit differences of whatever computed the argument
+            # (var() = 249999041502.848 vs ...502.84793 gives sines 7e-5 apart): ill-conditioned, not judged
+            try:
+                import numpy
+
+                aa = numpy.asarray(values[0], dtype="float64")
+                with numpy.errstate(all="ignore"):
+                    if aa.size and bool(numpy.nanmax(numpy.abs(aa[numpy.isfinite(aa)]), initial=0.0) > 1e5):
+                        OBS.triggers.add("ill_conditioned_trig")
+            except Exception:
+                pass
         if name in ("<", "<=", ">", ">=", "==", "!=") and len(values) == 2:
             # a comparison whose float operands are (nearly) tied is decided by the last bit of the math library in use:
             # engines legitimately differ there (tanh(19) is 1.0 in numpy and 0.99999999999999989 in SQLite's libm)
